@@ -2,3 +2,4 @@
 import BromeliaVerif.Properties.C17
 import BromeliaVerif.Properties.C18
 import BromeliaVerif.Properties.C20
+import BromeliaVerif.Properties.C01
